@@ -48,11 +48,12 @@ fn oversized(ty: &Ty, v: &Val, ver: u32, input_len: usize) -> Option<String> {
         (Ty::Array(t, _), Val::Seq(items)) => items.iter().find_map(|x| oversized(t, x, ver, input_len)),
         (Ty::Tuple(ts), Val::Tuple(items)) => ts.iter().zip(items).find_map(|(t, x)| oversized(t, x, ver, input_len)),
         (Ty::Def(d), Val::Struct(items)) => match &d.kind {
-            DefKind::Struct(s) => s.fields.iter().zip(items).filter(|(f, _)| f.removed == RemovedKind::No).find_map(|(f, x)| oversized(&f.ty, x, ver, input_len)),
+            // fields absent at this data version hold their declared default, which does not come from the input
+            DefKind::Struct(s) => s.fields.iter().zip(items).filter(|(f, _)| f.removed == RemovedKind::No && f.present_at(ver)).find_map(|(f, x)| oversized(&f.ty, x, ver, input_len)),
             _ => None,
         },
         (Ty::Def(d), Val::Variant(i, items)) => match &d.kind {
-            DefKind::Enum(e) => e.variants.get(*i as usize).and_then(|var| var.fields.iter().zip(items).find_map(|(f, x)| oversized(&f.ty, x, ver, input_len))),
+            DefKind::Enum(e) => e.variants.get(*i as usize).and_then(|var| var.fields.iter().zip(items).filter(|(f, _)| f.removed == RemovedKind::No && f.present_at(ver)).find_map(|(f, x)| oversized(&f.ty, x, ver, input_len))),
             _ => None,
         },
         _ => None,
